@@ -42,7 +42,7 @@ func TestBatchMatchesSequential(t *testing.T) {
 	defer runtime.GOMAXPROCS(runtime.GOMAXPROCS(0))
 	maxLen := ev.Pick(24, 64)
 	reps := ev.Pick(1, 2)
-	ev.Check(t, cases(300, 6_000), func(t *rapid.T) {
+	ev.Check(t, cases(300, 4_800), func(t *rapid.T) {
 		n := drawNet(t)
 		pnum := drawParentNumber(t, n.s)
 		strict := rapid.Bool().Draw(t, "strict")
